@@ -695,6 +695,11 @@ class C13(Property):
 
     # ------------------------------------------------------------------ model line
     def line(self, case):
+        ln = self.line0(case)
+        fname = case.get('fname', 0)
+        return 'F%d %s' % (fname, ln) if fname else ln
+
+    def line0(self, case):
         def nl(l):
             return ','.join(str(x) for x in l) or '-'
 
